@@ -111,6 +111,11 @@ func (rl *rangeLoop) isElem(v ssa.Value) bool {
 	return false
 }
 
+// inExitRegion: b is reached by leaving the loop early (dominated by the header, outside the loop, not after Done).
+func (rl *rangeLoop) inExitRegion(b *ssa.BasicBlock) bool {
+	return rl.Header.Dominates(b) && b != rl.Header && !rl.inLoop(b) && !rl.Done.Dominates(b)
+}
+
 // exits lists the CFG edges (from-block) leaving the loop other than header->Done.
 func (rl *rangeLoop) earlyExits() []*ssa.BasicBlock {
 	var out []*ssa.BasicBlock
